@@ -31,6 +31,9 @@ def force_sets(a, b, seed):
         'edge_x_cte+corner_inc': [(P['edge'], (1., 0., 0.), True), (P['corner'], (0.3, 0.8, -1.1), False)],
         'same_point_twice': [(P['mid'], (0., 1., 0.5), True), (P['mid'], (0., 1., 0.5), False)],
         'three_mixed': [(P['interior'], gen, True), (P['origin'], (0., 0., 1.), False), (P['edge'], (0., -2., 0.), False)],
+        # a point that returns after another point was evaluated in between (constant A, constant B, incrementable A, constant B)
+        'point_revisited': [(P['interior'], gen, True), (P['edge'], (0., -2., 0.), True), (P['interior'], (0.5, 0.2, -1.0), False),
+                            (P['edge'], (1., 0., 0.3), True)],
     }
 
 
@@ -51,8 +54,10 @@ def cases(tier, seed):
                     continue
                 out.append(dict(kind='assembly', seq=''.join(seq), inc=inc, seed=seed))
     for curved, stiffs, where in itertools.product([0, 1], [(), ('b1d_f',), ('b2d_f',), ('t2d',), ('b2d_f', 't2d'), ('t2d', 'b2d_bf')],
-                                                   ['skin', 'stiff', 'both']):
+                                                   ['skin', 'stiff', 'both', 'stiff_last']):
         if where != 'skin' and not any(s[0] in 'bt' and '2d' in s for s in stiffs):
+            continue
+        if where == 'stiff_last' and len(stiffs) < 2:
             continue
         out.append(dict(kind='bay', curved=curved, stiffs=list(stiffs), where=where, seed=seed))
     return out
@@ -221,8 +226,11 @@ def check_bay(case):
     for pos, comp in skin_forces:
         spb.forces_skin.append([pos[0], pos[1], comp[0], comp[1], comp[2]])
     stiff_forces = {}
-    if case['where'] in ('stiff', 'both'):
+    if case['where'] in ('stiff', 'both', 'stiff_last'):
+        last = global_order(case['stiffs'])[-1] if case['where'] == 'stiff_last' else None     # only the last stiffener of the global vector carries forces
         for k, s in enumerate(spb.stiffeners):
+            if last is not None and k != last:
+                continue
             if hasattr(s, 'flange') and s.flange is not None and hasattr(s.flange, 'add_force') and stiff_size(case['stiffs'][k]):
                 s.flange.add_force(0.3 * a, 0.5 * s.flange.b, 0.5, 0., 1.5)
                 stiff_forces[(k, 'flange')] = [((0.3 * a, 0.5 * s.flange.b), (0.5, 0., 1.5), True)]
